@@ -137,6 +137,9 @@ def _compare_da(a: xr.DataArray, b: xr.DataArray, tol: float, path: str, relax: 
     if set(a.dims) != set(b.dims):
         return [f"{path}: dims {a.dims} != {b.dims}"]
     if a.dims != b.dims:
+        if not (relax and relax.get("dim_order")):
+            # the order of the dimensions is part of the answer (both routes run the same code)
+            return [f"{path}: dims order {a.dims} != {b.dims}"]
         a = a.transpose(*b.dims)
     for d in b.dims:
         r = _index_equal(a, b, d)
